@@ -129,7 +129,7 @@ function shallowTypes(obj) {
 
 // ---- TS clients ------------------------------------------------------------------------------------
 
-async function clientCall({ module: modPath, service, method, baseURL, request, clientOptions, callOptions, capture, cannedStatus, cannedBody }) {
+async function clientCall({ module: modPath, service, method, baseURL, request, clientOptions, callOptions, capture, cannedStatus, cannedBody, cannedContentType }) {
   const mod = await load(modPath);
   const Cls = mod[service + 'Client'];
   if (typeof Cls !== 'function') throw new Error('module exports no ' + service + 'Client');
@@ -140,7 +140,7 @@ async function clientCall({ module: modPath, service, method, baseURL, request, 
       const headers = {};
       new Headers(init?.headers ?? {}).forEach((v, k) => { headers[k] = v; });
       captured = { url: String(url), method: init?.method ?? 'GET', headers, body: init?.body == null ? null : String(init.body) };
-      return new Response(cannedBody ?? '{}', { status: cannedStatus ?? 200, headers: { 'Content-Type': 'application/json' } });
+      return new Response(cannedBody ?? '{}', { status: cannedStatus ?? 200, headers: { 'Content-Type': cannedContentType ?? 'application/json' } });
     };
   }
   const client = new Cls(baseURL, copts);
